@@ -19,7 +19,8 @@ CHECKS = {
              "identifiability test, entered through random add_* entry "
              "points (full/abbreviated matrices, port maps, m and a/b, "
              "const/scalar/vector parameters, sparse and one-way multi-port "
-             "standards, receiver gains and reference-wave scales of "
+             "standards, partly specified S matrices, arbitrary path "
+             "phases, receiver gains and reference-wave scales of "
              "1e-7..1e4); solve + apply must return the device within "
              "1e-11(1+kappa). Observed executions only.",
         note="trusted: numpy/LAPACK, the E-term signal-flow model; "
@@ -192,8 +193,11 @@ CHECKS["C02"] = dict(
          "failure must be -1/EDOM with one MATH message, a success must give "
          "the true parameter values and a correct device within 30*tol + "
          "1e-10(1+kappa), also when the same unknown is solved again on "
-         "another grid; an aggregate convergence floor guards against a "
-         "solver that never converges.",
+         "another grid, with the documented default tolerances, with "
+         "correlated chains, with arbitrary path phases, and when a second "
+         "TRL set reuses the unknown handles of a first one; convergence "
+         "floors (aggregate and per error-term type) guard against a solver "
+         "that does not converge from inside the basin.",
     note="termination restated as 'returns within the watchdog'; guesses are "
          "generated inside the basin by construction (nearer the true TRL "
          "root; within 0.02..0.1 for LM); square shapes for LM",
@@ -270,7 +274,10 @@ CHECKS["C16"] = dict(
          "calls are compared with an abstract table model after every "
          "operation; a handle deleted while in use must leave the solve "
          "bit-identical to the twin run without the deletion and be refused "
-         "for new use.",
+         "for new use; one noisy calibration with a shared unknown built "
+         "under low and under shifted, sparse handle numbers (and with the "
+         "unknown's guess / correlate deleted after it was made) must give "
+         "the same verdicts, solved values and corrected device.",
     note="the numbering policy of handles and free slots is not asserted",
     design_ref="DESIGN.md section 2, C16")
 
